@@ -92,3 +92,30 @@ pub fn hint_sized(it: impl Iterator<Item = u8>) -> Vec<u8> {
 	v.extend(it);
 	v
 }
+
+/// Positive control for R04.7: a raw first-byte fast path whose fixstr mask is too wide (it also accepts the
+/// negative fixints 0xe0..=0xff and sizes them as strings).
+pub fn raw_marker_fast_path(mut input: &[u8], n: u32) -> Option<usize> {
+	let mut total = 0;
+	for _ in 0..n {
+		let size = match input.first() {
+			None => return None,
+			Some(&b) if b & 0b1010_0000 == 0b1010_0000 => 1 + usize::from(b & 0b0001_1111),
+			Some(_) => sized_elsewhere(input)?,
+		};
+		if size > input.len() {
+			return None;
+		}
+		input = &input[size..];
+		total += size;
+	}
+	Some(total)
+}
+
+fn sized_elsewhere(input: &[u8]) -> Option<usize> {
+	if input.is_empty() {
+		None
+	} else {
+		Some(1)
+	}
+}
